@@ -544,6 +544,9 @@ def rules(rep, m):
         r6.fail()
     else:
         r6.ok()
+    # re-keying restores the order in every situation (shared with R-C02-12: all paths x all scenarios of a small model)
+    from . import siftrules as _sr
+    _sr.check_reposition(rep, r6, m)
     sifts = [callee_ref(n) for n in walk(rp.body) if n["kind"] == "CallExpr" and callee_ref(n) in ("heap_up", "heap_down")]
     if sorted(set(sifts)) != ["heap_down", "heap_up"]:
         rep.finding(r6, rp.name, "resift", "the repositioned entry is not re-sifted both ways (calls: %s)" % sifts,
